@@ -447,8 +447,10 @@ func (e *Exec) heapRead(st *State, name, sort string) Term {
 	if h, ok := st.heaps[name]; ok {
 		return h
 	}
-	if _, bumped := st.ghosts["heapver"]; bumped {
-		h := e.sc.Fresh("heap_"+name, sort)
+	if ver, bumped := st.ghosts["heapver"]; bumped {
+		// one constant per (heap, havoc): clones of this state (contract evaluation, dry runs) that touch the
+		// heap first must see the same heap as the state they were cloned from
+		h := e.sc.Const("heap_"+name+"@"+strings.Trim(ver.T.S, "|"), sort)
 		st.heaps[name] = h
 		return h
 	}
@@ -903,7 +905,7 @@ func (e *Exec) assign(st *State, s *ast.AssignStmt) {
 				st.heaps["G:"+obj.Pkg().Path()+"."+obj.Name()] = v.T
 				continue
 			}
-			st.vars[obj] = v
+			st.vars[obj] = e.named(v, obj.Name())
 			continue
 		}
 		e.store(st, l, vals[i])
@@ -950,6 +952,17 @@ func (e *Exec) evMulti(st *State, x ast.Expr, n int) []Val {
 }
 
 // store assigns v to an lvalue expression.
+// named keeps the terms solvers see small (and usable in quantifier patterns): a large value bound to a
+// variable is given a name.
+func (e *Exec) named(v Val, hint string) Val {
+	if len(v.T.S) > 200 && e.binders == 0 && v.Tuple == nil && v.T.Sort != "" {
+		nm := e.sc.Fresh("v_"+hint, v.T.Sort)
+		e.sc.Assert(Eq(nm, v.T))
+		v.T = nm
+	}
+	return v
+}
+
 func (e *Exec) store(st *State, l ast.Expr, v Val) {
 	info := e.info()
 	switch l := ast.Unparen(l).(type) {
@@ -969,7 +982,7 @@ func (e *Exec) store(st *State, l ast.Expr, v Val) {
 		if v.Fn != nil {
 			e.top().closures[obj] = v.Fn
 		}
-		st.vars[obj] = v
+		st.vars[obj] = e.named(v, obj.Name())
 	case *ast.SelectorExpr:
 		// x.f = v
 		base := e.ev(st, l.X)
